@@ -70,15 +70,21 @@ where
             entity_identifiers.capacity(),
         );
 
+        // No rows are stored while the columns are being replaced: if a component's `Clone` or
+        // `Drop` implementation panics below, the columns do not have a common length any more, and
+        // the values still in them are leaked instead of being dropped a second time later.
+        let length = self.length;
+        self.length = 0;
+
         // SAFETY: `self.components` contains the valid raw parts for a `Vec<C>` for each `C`
-        // identified by `self.identifier`, with length `self.length`. `source.components` contains
+        // identified by `self.identifier`, with length `length`. `source.components` contains
         // the valid raw parts for a `Vec<C>` for each `C` identified by `self.identifier`, with
         // length `source.length`. The `R` upon which this function is called is the same `R` that
         // `self.identifier` is generic over.
         unsafe {
             R::clone_from_components(
                 &mut self.components,
-                self.length,
+                length,
                 &source.components,
                 source.length,
                 self.identifier.iter(),
